@@ -522,6 +522,7 @@ class _Grid:
         # Use squared Euclidean distance to avoid sqrt operation
         dx, dy = abs(pos1[0] - pos2[0]), abs(pos1[1] - pos2[1])
         if self.torus:
+            dx, dy = dx % self.width, dy % self.height
             dx = min(dx, self.width - dx)
             dy = min(dy, self.height - dy)
         return dx**2 + dy**2
